@@ -491,7 +491,13 @@ func checkExportWiring(c *Ctx, tmpls []*tmplInfo) {
 	for _, b := range f.Blocks {
 		for _, in := range b.Instrs {
 			call, ok := in.(*ssa.Call)
-			if !ok || calleeName(call) != "(*text/template.Template).Execute" {
+			if !ok {
+				continue
+			}
+			if n := calleeName(call); n != "(*text/template.Template).Execute" {
+				if strings.HasSuffix(n, "template.Template).Execute") || strings.HasSuffix(n, "template.Template).ExecuteTemplate") {
+					c.Violated("T4", fname, "template engine", c.P.ipos(call), "the export is rendered with "+n+", not text/template: values are escaped or rendered differently, ids and tracks are no longer verbatim")
+				}
 				continue
 			}
 			e := exec{call: call}
